@@ -33,6 +33,37 @@ COST_KEY_PREFIX = ('p', 'ec', 'tc')
 warnings.filterwarnings('ignore', category=FutureWarning)
 
 
+# ------------------------------------------------------------------ registry texts of the C17 package
+# (harness/props/c17.py holds the registered list; these are the up-to-date names and readings — it may import them)
+_P17 = 'EAO.Properties.C17'
+THEOREMS_C17 = [
+    (_P17, 'EAO.C17.makeSlp_ok_iff', 'exact success condition of make_slp (non-empty future, future labels in range, bounds and samples of the right length); variables without mapping row are fine'),
+    (_P17, 'EAO.C17.makeSlp_error', 'every failure is an index error'),
+    (_P17, 'EAO.C17.makeSlp_eq', 'shape of the SLP problem: cost (straddling present entries = mean over own + sample costs, future entries / (S+1), sample blocks), bounds, rows, mapping'),
+    (_P17, 'EAO.C17.slp_n', 'n_slp = n + S * n_future (bounds)'),
+    (_P17, "EAO.C17.slp_n'", 'n_slp = n + S * n_future (cost vector)'),
+    (_P17, 'EAO.C17.slpStraddle_disjoint', 'a straddling variable (present, with a mapping row at a future step) is a present variable'),
+    (_P17, 'EAO.C17.value_split', 'value = present part + future part'),
+    (_P17, 'EAO.C17.presentValue_split', 'present part = non-straddling present part + straddling part'),
+    (_P17, 'EAO.C17.slp_structure', 'a point of the SLP problem is (x_present, x_future^0 .. x_future^S): it is feasible iff every recombined (x_present, x_future^s) is feasible for the original problem; its value is value of the non-straddling present variables (own costs) + mean over scenarios of (value of the straddling present variables + value_future^s). Present-stage decisions are common to all scenarios by construction'),
+    (_P17, 'EAO.C17.slp_value_mean', 'if the samples share the costs of the present variables that are NOT straddling (SharePresentNS) the SLP value is the mean of the full scenario values of the recombined points'),
+    (_P17, 'EAO.C17.sharePresentNS_of_sharePresent', 'sharing the whole present part of the costs implies SharePresentNS'),
+    (_P17, 'EAO.C17.slp_mapping_faithful', 'the mapping of the SLP problem keeps the original rows and gives every copy the label of its new variable; first rows and boolean variables are the original ones plus the copies'),
+    (_P17, 'EAO.C17.slp_dispatch_mean', 'the dispatch reported for an SLP result = mean over scenarios of the dispatch of the recombined points: present variables count once (also where they reach into the future), future variables are averaged'),
+    (_P17, 'EAO.C17.slp_dispatch_balance', 'hence the reported SLP dispatch balances at every node and step where every recombined point does'),
+    (_P17, 'EAO.C17.slp_le_wait_and_see', 'abstract two-stage lemma: SLP value <= mean of per-scenario upper bounds'),
+    (_P17, 'EAO.C17.ev_le_slp', 'abstract: fixing the first stage to any decision that admits recourse in every scenario gives an SLP-feasible point; its mean value is <= every upper bound of the SLP value'),
+    (_P17, 'EAO.C17.slp_eq_det_of_equal', 'abstract: all scenarios equal => SLP optimum = deterministic optimum'),
+    (_P17, 'EAO.C17.slp_le_wait_and_see_problem', 'instance for makeSlp under SharePresentNS: SLP value of a feasible point <= mean of upper bounds of the per-scenario problems (each with its own full cost vector)'),
+    (_P17, 'EAO.C17.slp_eq_det_of_equal_problem', 'instance for makeSlp: all samples equal to the own costs => SLP value <= every upper bound of the deterministic value'),
+    (_P17, 'EAO.C17.robust_bounds', 'worst case of any feasible x <= smallest per-scenario upper bound; the maximiser of the worst case dominates the worst case of every feasible point'),
+    (_P17, 'EAO.C17.robust_bounds_problem', 'instance for the robust target (robustObjective)'),
+    (_P17, 'EAO.C17.robust_reported_value', 'if the problem\'s own cost vector is among the samples the worst case is at most the reported value'),
+    ('EAO.Properties.C03', 'EAO.C03.robust_epigraph', 'the epigraph value handed to the solver is the minimum over the samples of -c_s.x'),
+]
+PARTIAL_C17 = ['ev_le_slp is proved in abstract form; its concrete instance for makeSlp (fixing the present variables) is a TARGET comment in C17.lean and covered by the oracle chain EEV <= SLP <= WS on the real code']
+
+
 # ------------------------------------------------------------------ generator
 def _scaled_single(rnd, g, prices, T, name, node):
     bk = rnd.choice(['simple', 'storage', 'contract'])
